@@ -2,7 +2,7 @@ ENGINES = [
     {"name": "csym", "path": "vt/csym.py", "serves_properties": ["C01", "C02", "C03", "C13", "C18"],
      "kind_free_text": "symbolic interpreter of traits/ctraits.c over clang's JSON AST (regenerated from the current source on every run), "
                        "CPython API contracts in vt/capi.py, shared path condition with symx; memory-safety assertions on every path"},
-    {"name": "symx", "path": "vt/symx.py", "serves_properties": ["C01", "C03", "C04", "C05", "C06", "C07", "C13", "C15", "C20"],
+    {"name": "symx", "path": "vt/symx.py", "serves_properties": ["C01", "C03", "C04", "C05", "C06", "C07", "C13", "C15", "C17", "C20"],
      "kind_free_text": "symbolic execution of the real Python code on z3-backed proxies (DFS over decision prefixes by re-execution), "
                        "environment models for built-ins (vt/envmodels.py), concrete replay of every counterexample and one witness per path"},
 ]
@@ -136,4 +136,15 @@ CHECKS["C15"] = dict(
     note="Trusted: the reference grammar (props/c15.py, from the manual), the 50-line table driver. The character-level lexer, whitespace and "
          "NAME spellings are covered only through rendered witnesses (sampling, seeded by VERIF_SEED). Two known findings (star inside "
          "brackets; duplicate parallel branches fail to compile). Outside: sequences longer than L, inequality of different patterns.")
+CHECKS["C17"] = dict(
+    text="Symbolic execution of the real AdaptationManager search on a fresh manager: offers m<=3 (4) with endpoints over a fixed 5-protocol "
+         "hierarchy (inheritance, multiple inheritance, ABC registration) chosen by symbolic selectors; one symbolic Boolean per "
+         "(offer, predecessor) = 'this conditional factory returns None' (path-dependent factories included), decided lazily when the "
+         "search calls the factory. Oracle: z3 formula over those Booleans for 'some simple chain of applicable offers succeeds'; "
+         "adapter returned <=> formula, chain length minimal, more specific single-step offer preferred, object itself when it already "
+         "provides the protocol; on a None result z3 proves no chain can succeed for ANY value of the outcomes never read. Plus "
+         "AdaptsTo/Supports assignment histories through the interpreted C path.",
+    design_ref="DESIGN.md section 4 C17", technique="symbolic execution of the real Python code with z3 (symx) against a z3 formula over all simple chains; counterexamples replayed",
+    note="Assumes a factory's outcome depends only on which offer produced its adaptee. Endpoints/hierarchy: choice enumeration. "
+         "Outside: more than 4 offers, other hierarchies, register_provides with Interface classes, cached protocol look-ups.")
 NOT_APPLICABLE = {p: NOT_BUILT for p in ["C%02d" % i for i in range(1, 21)]}
